@@ -5,7 +5,7 @@ tree=${1:-/repo}
 cd "$(dirname "$0")/seeded" || exit 3
 run_demo() { d=$1; out=$(cd "$d" && PYTHONPATH=$2 timeout 900 /venv/bin/python demo.py 2>&1 | tail -1); echo "$d :: $out"; }
 export -f run_demo
-ls | xargs -P 14 -I{} bash -c "run_demo {} $tree" > /tmp/demos_all.$$ 2>&1
+ls -d */ | tr -d / | xargs -P 14 -I{} bash -c "run_demo {} $tree" > /tmp/demos_all.$$ 2>&1
 bad=$(grep -vc ":: PASS" /tmp/demos_all.$$)
 grep -v ":: PASS" /tmp/demos_all.$$ | cut -c1-240
 echo "demos: $(wc -l < /tmp/demos_all.$$) run, $bad not PASS"
